@@ -84,6 +84,12 @@ def judge(ctx, r, reply, case, site, opts, conc):
     normed = [cc.norm(u, '') or u for u in r['requests']]
     redirect_targets = {cc.norm('http://%s%s' % (cc.HOST, p), d['location']) for p, d in site.pages.items()
                         if d['kind'] == 'redirect'}
+    by_resource = {}
+    for u in r['requests']:
+        by_resource.setdefault(cc.resource_key(u), []).append(u)
+    for k, us in by_resource.items():
+        if len(set(us)) > 1:
+            ctx.fail('dup-request', 'spelling', case, 'one resource requested under %d spellings: %s' % (len(set(us)), sorted(set(us))))
     seen = set()
     for u in normed:
         if u in seen:
